@@ -214,8 +214,26 @@ def imports():
     return out
 
 
+LABS = Extern("labs", [("x", "int")], "int")
+TOUPPER = Extern("toupper", [("c", "int")], "int")
+
+
+def externs():
+    """external (libc) functions called inside unsafe blocks, in every statement position"""
+    out = {}
+    mag = Func("mag", [("x", "int")], "int", [Unsafe([Ret(Call("labs", V("x")))])])
+    up = Func("up", [("c", "int")], "int", [Let("r", "int", I(0), True), Unsafe([Set("r", Call("toupper", V("c")))]), Ret(V("r"))])
+    def mk(body, fns):
+        p = prog(body, fns); p["externs"] = [LABS, TOUPPER]; return p
+    out["extern_unsafe_return"] = mk([Println(Call("mag", I(-42))), Println(Call("mag", I(7)))], [mag])
+    out["extern_unsafe_set"] = mk([Println(Call("up", I(98))), Println(Call("up", I(66)))], [up])
+    out["extern_unsafe_in_loop"] = mk([Let("acc", "int", I(0), True), For("i", I(-2), I(3), [Unsafe([Set("acc", Bin("+", V("acc"), Call("labs", V("i"))))])]), Println(V("acc"))], [])
+    out["extern_unsafe_then_plain"] = mk([Println(Call("mag", I(-5))), Unsafe([Println(Call("toupper", I(97)))]), Println(Call("up", I(122)))], [mag, up])
+    return out
+
+
 def all_families():
     out = {}
-    for f in (short_circuit, eval_order, scopes, loops, data, imports):
+    for f in (short_circuit, eval_order, scopes, loops, data, imports, externs):
         out.update(f())
     return out
